@@ -120,9 +120,17 @@ func VerifC17Staking() {
 		receipt.Logs = append(receipt.Logs, l)
 	}
 
+	// the receipt is shared: the same object is handed to every hook of the chain (staking, gov, aggregate, xibc) in turn
+	handed := append([]*ethtypes.Log(nil), receipt.Logs...)
+
 	err := h.PostTxProcessing(ctx, anyTxMessage(), receipt)
 
 	rt.Reach("hook-returned")
+	unchanged := len(receipt.Logs) == len(handed)
+	for i := 0; unchanged && i < len(handed); i++ {
+		unchanged = receipt.Logs[i] == handed[i]
+	}
+	rt.Assert("D7-the-hook-leaves-the-shared-receipt's-logs-as-they-were", unchanged)
 	nFrom := 0
 	for _, b := range fromContract {
 		if b {
